@@ -218,6 +218,9 @@ pub open spec fn load_post(a0: Map<Uri, Text>, a1: Map<Uri, Text>, files: Seq<(P
         }
 }
 impl AnalysisWriteGuard {
+    /// rule `write-guard-deref`: `Deref::deref` of the guard — the analysis behind the lock, read-only
+    #[verifier::external_body]
+    pub fn vx_deref(&self) -> &EmmyLuaAnalysis { unimplemented!() }
     #[verifier::external_body]
     pub fn clear_non_std_workspaces(&mut self) { }
     #[verifier::external_body]
